@@ -160,3 +160,68 @@ def long_token(rng, kind=None, min_len=101, max_len=180):
         parts.append("".join(rng.choice("0123456789") for _ in range(8)) if kind == "digits" else
                      (word(rng) + ("%02d" % rng.randint(0, 99) if rng.random() < 0.3 else "")))
     return head + sep.join(parts) + tail
+
+
+DEGENERATE_STR_KINDS = ["blank", "blank", "blank", "quote-mark", "punct", "punct", "padded"]
+
+
+def degenerate_str_value(rng, kind=None):
+    """a str value with no word in it: only blanks/tabs (a separator, an indent), only quote marks, only punctuation, or
+    a one-character token with outer padding.  ASCII, single line."""
+    kind = kind or rng.choice(DEGENERATE_STR_KINDS)
+    if kind == "blank":
+        return rng.choice([" ", " ", "\t", "  ", "    ", "\t\t", " \t", "\t ", "        ",
+                           "".join(rng.choice(" \t") for _ in range(rng.randint(1, 6)))])
+    if kind == "quote-mark":
+        return rng.choice(["'", '"', "''", '""', "' '", '" "', "'\"", "'''", '"""', "`", "``"])
+    if kind == "punct":
+        return "".join(rng.choice(",;:-_*#?!/|+=~@%&<>^$()[]{}.\\") for _ in range(rng.randint(1, 3)))
+    c = rng.choice(["x", "-", ",", ":", "|", "0", "'x'", '"x"'])
+    return rng.choice([" ", "  ", "\t"]) * rng.randint(0, 1) + c + rng.choice([" ", "  ", "\t"]) * rng.randint(0, 1) \
+        if rng.random() < 0.3 else rng.choice([" ", "  ", "\t"]) + c + rng.choice([" ", "  ", "\t"])
+
+
+# ---- prose whose tokens END (or begin) in punctuation: the characters a wrapped line can end in
+SUSPENDED_HEADS = ["left-", "right-", "pre-", "post-", "row-", "column-", "single-", "double-", "upper-", "lower-",
+                   "higher-", "mixed-", "over-", "under-", "short-", "long-", "2-", "3-", "1-,", "2-,", "header-", "read-",
+                   "x-", "in-", "non-", "sub-", "multi-"]
+SUSPENDED_LINKS = ["or", "and", "to", "then", "and/or"]
+SUSPENDED_TAILS = ["right-aligned", "post-padding", "column-wise", "double-quoted", "lower-case", "mixed-rank",
+                   "under-sampled", "long-lived", "3-dimensional", "body-rows", "write-only", "y-axis", "out-of-core",
+                   "zero-based", "sub-sampled", "multi-label"]
+EDGE_TAILS = [",", ";", ")", "!", "?", "/", "...", "-", "--", "'", '"', "]", "}", "%", "*", "+", "=", "&"]
+EDGE_HEADS = ["(", "[", "'", '"', "-", "--", "~", "#", "*", "/", "+", "="]
+EDGE_KINDS = ["suspended", "suspended", "suspended", "tail", "tail", "head", "lone"]
+
+
+def edge_tokens(rng, kind=None):
+    """a short run of prose tokens of which at least one ends (or begins) in punctuation while still being a token of
+    its own: a suspended hyphen with its continuation (`left- or right-aligned`, `1-, 2- or 3-dimensional`), a word with
+    a trailing / leading punctuation character (`items;`  `(see`  `rate/`), or a lone punctuation token (`-`, `/`, `&`)"""
+    kind = kind or rng.choice(EDGE_KINDS)
+    if kind == "suspended":
+        heads = rng.sample(SUSPENDED_HEADS, rng.choice([1, 1, 1, 2]))
+        out = []
+        for h in heads[:-1]:
+            out.append(h if h.endswith(",") else h + ",")
+        out += [heads[-1].rstrip(","), rng.choice(SUSPENDED_LINKS), rng.choice(SUSPENDED_TAILS)]
+        return out
+    if kind == "tail":
+        return [word(rng) + rng.choice(EDGE_TAILS)]
+    if kind == "head":
+        return [rng.choice(EDGE_HEADS) + word(rng)]
+    return [rng.choice(["-", "--", "/", "&", "+", "=", "*", "|"])]
+
+
+def edge_prose(rng, min_words=8, max_words=30, density=0.3, terminal=".", kinds=None):
+    """one line of prose of plain words in which about `density` of the positions hold an edge_tokens run: whatever the
+    width, some wrapped line ends (or starts) in one of them.  No spice, no default announcement, starts with a plain
+    word; terminal as in clean_prose"""
+    n = rng.randint(min_words, max_words)
+    ws = [word(rng)]
+    while len(ws) < n:
+        if rng.random() < density:
+            ws += edge_tokens(rng, rng.choice(kinds) if kinds else None)
+        ws.append(word(rng))
+    s = " ".join(ws)
+    return s + terminal if terminal else s
